@@ -13,7 +13,7 @@ def parseAns (s : String) (napps : Nat) : Option (List Ans) :=
   if s.length ≠ napps then none
   else s.toList.mapM fun c =>
     if c = 'y' then some Ans.yes else if c = 'n' then some Ans.no
-    else if c = 'e' then some Ans.err else none
+    else if c = 'e' then some Ans.err else if c = 'b' then some Ans.yesErr else none
 
 def parseStep (napps : Nat) (s : String) : Option Step :=
   match s.splitOn "/" with
